@@ -447,6 +447,24 @@ func (c *Ctx) checkContiguity(rule string, st *ssa.Store) {
 			}
 		}
 	})
+	// ... or the store write itself (the setter written in place)
+	for _, op := range p.StoreOps(fn) {
+		if op.Op != "Set" || c.prefixName(op) != "LastEventNonceByValidatorKey" {
+			continue
+		}
+		nonceSets = append(nonceSets, op.Site.(ssa.Instruction))
+		for _, pt := range op.Key.Parts {
+			if pt.Val == nil || valOfRead == nil {
+				continue
+			}
+			if rv := ana.ResolvePart(pt); rv == valOfRead || operandReaches(rv, valOfRead, 4) {
+				sameVal = true
+			}
+		}
+		if op.Value != nil && isEventNonce(op.Value) {
+			valueIsEventNonce = true
+		}
+	}
 	ok, ret := ana.MustPassBefore(st, nonceSets, false)
 	where := "-"
 	if ret != nil {
